@@ -63,6 +63,7 @@ def _run(case, spec, first_spec) -> Result:
     from mici.states import ChainState
 
     res = Result()
+    used = None
     if first_spec is None:
         system, model = zoo.build_system(spec)
     else:
@@ -72,6 +73,17 @@ def _run(case, spec, first_spec) -> Result:
         system.h2_flow(warm, 0.37)
         if hasattr(system, "dh2_flow_dmom"):
             system.dh2_flow_dmom(warm, 0.37)
+        # a state at the test point that has been USED under the first metric (energy, kinetic gradient, Gram matrix
+        # cached): the flows below start from copies of it, carrying those cached values across the re-assignment
+        used = ChainState(pos=np.array(case["q"], dtype=float), mom=np.array(case["p"], dtype=float), dir=1)
+        try:
+            system.h(used)
+            system.dh_dmom(used)
+            system.dh_dpos(used)
+        except Exception as e:  # noqa: BLE001
+            if through_code_under_test(e.__traceback__) is None:
+                raise
+            used = None
         new_metric = zoo.build_metric(spec["metric"], spec["dim"])
         system.metric = new_metric
         model = zoo.Model(spec)
@@ -83,7 +95,7 @@ def _run(case, spec, first_spec) -> Result:
     res.classes += [cls, "metric:" + mt]
     if model.con is not None:
         J = model.con.jac(q)
-        if np.linalg.cond(J @ model.Minv_const @ J.T) > 1e4:
+        if zoo.gram_ill_conditioned(J, model.Minv_const):
             res.discarded = True
             return res
     gauss = cls in ("gaussian", "gaussian_constrained")
@@ -93,6 +105,8 @@ def _run(case, spec, first_spec) -> Result:
         res.classes.append("longer-than-a-period")
 
     def st0():
+        if first_spec is not None and used is not None:
+            return used.copy()
         return ChainState(pos=q.copy(), mom=p.copy(), dir=1)
 
     def attempt(name, fn):
